@@ -2958,11 +2958,14 @@ bounded_affine_image(const Variable var,
                              LESS_OR_EQUAL,
                              ub_expr,
                              denominator);
-    if (denominator > 0) {
-      refine_no_check(lb_expr <= denominator*var);
-    }
-    else {
-      refine_no_check(denominator*var <= lb_expr);
+    // The image may have been found to be empty.
+    if (!marked_empty()) {
+      if (denominator > 0) {
+        refine_no_check(lb_expr <= denominator*var);
+      }
+      else {
+        refine_no_check(denominator*var <= lb_expr);
+      }
     }
   }
   else if (ub_expr.coefficient(var) == 0) {
@@ -2971,11 +2974,14 @@ bounded_affine_image(const Variable var,
                              GREATER_OR_EQUAL,
                              lb_expr,
                              denominator);
-    if (denominator > 0) {
-      refine_no_check(denominator*var <= ub_expr);
-    }
-    else {
-      refine_no_check(ub_expr <= denominator*var);
+    // The image may have been found to be empty.
+    if (!marked_empty()) {
+      if (denominator > 0) {
+        refine_no_check(denominator*var <= ub_expr);
+      }
+      else {
+        refine_no_check(ub_expr <= denominator*var);
+      }
     }
   }
   else {
